@@ -112,10 +112,21 @@ class Target:
         else:
             raise ValueError(self.k)
 
+    def state(self):
+        """of the caller-owned file object: is it still open, where is it positioned"""
+        if self.fobj is None:
+            return None
+        if self.fobj.closed:
+            return {"closed": True, "pos": None}
+        return {"closed": False, "pos": self.fobj.tell()}
+
     def written(self):
-        if self.k == "bytesio":
+        if self.fobj is not None and self.fobj.closed:
+            if self.k == "bytesio":
+                return None                      # the buffer is gone with the closed BytesIO
+        elif self.k == "bytesio":
             return self.fobj.getvalue()[self.pre:]
-        if self.k == "raw":
+        elif self.k == "raw":
             self.fobj.flush()
         if self.path and os.path.exists(self.path):
             with open(self.path, "rb") as f:
@@ -142,8 +153,13 @@ def run_resolve(c):
             out["raise"] = type(e).__name__
         out["wf"] = None if REC["wf"] is None else [jlevel(REC["wf"][0]), jlevel(REC["wf"][1])]
         out["calls"] = [[n, jlevel(l)] for n, l in REC["calls"]]
+        out["after_dump"] = tg.state()
         data = tg.written()
         out["bytes"] = None if data is None else data.hex()
+        if out["after_dump"] is not None and data is not None:
+            out["after_dump"]["expected_pos"] = tg.pre + len(data)
+        if out["raise"] is None and out["after_dump"] is not None and out["after_dump"]["closed"]:
+            return out                           # the caller's object was closed by dump: that is the outcome
         if out["raise"] is None:
             # load back, under the same name / from the same object
             try:
@@ -153,9 +169,11 @@ def run_resolve(c):
                     tg.fobj.close()
                     with open(tg.path, "rb") as f:
                         back = joblib.load(f)
+                        out["closed_after_load"] = f.closed
                 else:
                     tg.fobj.seek(0)
                     back = joblib.load(tg.fobj)
+                    out["closed_after_load"] = tg.fobj.closed
                 out["load_ok"] = back == VALUE
             except Exception as e:  # noqa
                 out["load_ok"] = False
@@ -473,7 +491,12 @@ def run_roundtrip(c):
         except Exception as e:  # noqa
             out["dump_raise"] = type(e).__name__ + ": " + str(e)[:120]
             return out
+        out["after_dump"] = tg.state()
         data = tg.written()
+        if out["after_dump"] is not None and data is not None:
+            out["after_dump"]["expected_pos"] = pre + len(data)
+        if out["after_dump"] is not None and out["after_dump"]["closed"]:
+            return out
         out["nbytes"] = len(data)
         out["head"] = data[:8].hex()
         # the uncompressed payload's head, for the "how a pickle starts" hypothesis
@@ -490,6 +513,7 @@ def run_roundtrip(c):
                 if c.get("load_via") == "fileobj":
                     with open(load_path, "rb") as f:
                         back = joblib.load(f)
+                        out["closed_after_load"] = f.closed
                 elif c.get("load_via") == "pathlib":
                     back = joblib.load(pathlib.Path(load_path))
                 else:
@@ -503,10 +527,11 @@ def run_roundtrip(c):
                 with open(load_path, "rb") as f:
                     f.seek(pre)
                     back = joblib.load(f)
-                    out["pos_after"] = f.tell() if c.get("want_pos") else None
+                    out["closed_after_load"] = f.closed
             else:
                 tg.fobj.seek(pre)
                 back = joblib.load(tg.fobj)
+                out["closed_after_load"] = tg.fobj.closed
         except Exception as e:  # noqa
             out["load_raise"] = type(e).__name__ + ": " + str(e)[:160]
             return out
@@ -541,6 +566,17 @@ class NoName:
 CARRIERS = ["tempfile", "fdopen", "pipe", "spooled_mem", "spooled_disk", "noname", "bytesname", "fd_open"]
 
 
+class StreamClosed(Exception):
+    pass
+
+
+def must_be_open(f, stage, out):
+    """dump()/load() must leave a caller-owned file object open"""
+    if getattr(f, "closed", False):
+        out["stream_closed"] = stage
+        raise StreamClosed(stage)
+
+
 def carrier_roundtrip(obj, form, proto, carrier, wd, out):
     """dump obj through the carrier's writing end, load it back through its reading end"""
     import threading
@@ -549,19 +585,25 @@ def carrier_roundtrip(obj, form, proto, carrier, wd, out):
         with tempfile.TemporaryFile(dir=wd) as f:
             out["name_type"] = type(getattr(f, "name", None)).__name__
             joblib.dump(obj, f, compress=form, protocol=proto)
+            must_be_open(f, "dump", out)
             f.flush()
             f.seek(0)
             out["head"] = f.read(8).hex()
             f.seek(0)
-            return joblib.load(f)
+            back = joblib.load(f)
+            must_be_open(f, "load", out)
+            return back
     if carrier in ("fdopen", "fd_open"):            # os.fdopen(fd) / open(fd): .name is an int
         mk = os.fdopen if carrier == "fdopen" else open
         with mk(os.open(path, os.O_WRONLY | os.O_CREAT | os.O_TRUNC, 0o600), "wb") as f:
             joblib.dump(obj, f, compress=form, protocol=proto)
+            must_be_open(f, "dump", out)
         out["head"] = open(path, "rb").read(8).hex()
         with mk(os.open(path, os.O_RDONLY), "rb") as f:
             out["name_type"] = type(getattr(f, "name", None)).__name__
-            return joblib.load(f)
+            back = joblib.load(f)
+            must_be_open(f, "load", out)
+            return back
     if carrier == "pipe":                           # not seekable, .name is an int
         rfd, wfd = os.pipe()
         err = []
@@ -570,6 +612,7 @@ def carrier_roundtrip(obj, form, proto, carrier, wd, out):
             try:
                 with os.fdopen(wfd, "wb") as wf:
                     joblib.dump(obj, wf, compress=form, protocol=proto)
+                    must_be_open(wf, "dump", out)
             except BaseException as e:  # noqa
                 err.append(e)
         t = threading.Thread(target=writer)
@@ -579,6 +622,7 @@ def carrier_roundtrip(obj, form, proto, carrier, wd, out):
                 out["name_type"] = type(getattr(rf, "name", None)).__name__
                 try:
                     back = joblib.load(rf)
+                    must_be_open(rf, "load", out)
                 finally:
                     try:
                         while rf.read(1 << 16):       # let the writer finish whatever happened
@@ -593,14 +637,18 @@ def carrier_roundtrip(obj, form, proto, carrier, wd, out):
     if carrier in ("spooled_mem", "spooled_disk"):  # .name is None (in memory) / an int (rolled over)
         with tempfile.SpooledTemporaryFile(max_size=(1 << 30) if carrier == "spooled_mem" else 16, dir=wd) as f:
             joblib.dump(obj, f, compress=form, protocol=proto)
+            must_be_open(f, "dump", out)
             f.seek(0)
             out["head"] = f.read(8).hex()
             f.seek(0)
             out["name_type"] = type(getattr(f, "name", None)).__name__
-            return joblib.load(f)
+            back = joblib.load(f)
+            must_be_open(f, "load", out)
+            return back
     if carrier == "noname":
         b = io.BytesIO()
         joblib.dump(obj, b, compress=form, protocol=proto)
+        must_be_open(b, "dump", out)
         out["head"] = b.getvalue()[:8].hex()
         f = NoName(b.getvalue())
         out["name_type"] = "absent"
@@ -608,10 +656,13 @@ def carrier_roundtrip(obj, form, proto, carrier, wd, out):
     if carrier == "bytesname":                      # open(b"...") : .name is bytes
         with open(os.fsencode(path), "wb") as f:
             joblib.dump(obj, f, compress=form, protocol=proto)
+            must_be_open(f, "dump", out)
         out["head"] = open(path, "rb").read(8).hex()
         with open(os.fsencode(path), "rb") as f:
             out["name_type"] = type(getattr(f, "name", None)).__name__
-            return joblib.load(f)
+            back = joblib.load(f)
+            must_be_open(f, "load", out)
+            return back
     raise ValueError(carrier)
 
 
@@ -631,6 +682,8 @@ def run_carrier(c):
         out["plain_head"] = b.getvalue()[:2].hex()
         try:
             back = carrier_roundtrip(obj, mk_form(c["form"]), c["proto"], c["carrier"], wd, out)
+        except StreamClosed:
+            return out
         except Exception as e:  # noqa
             out["load_raise"] = "%s carrier: %s: %s" % (c["carrier"], type(e).__name__, str(e)[:160])
             return out
